@@ -1,4 +1,211 @@
+/-
+C12 — relations borrowed through expand lexicons are mapped by ILI as documented.
+Theorems over `expandedSynsetRelations`, `synsetIterRelations`, `mkWordnet` (`Model/Api.lean`).
+-/
 import WnVerif.Model.Api
+import WnVerif.Lemmas.DbAux
 namespace WnVerif.Props.C12
-theorem placeholder_true : True := trivial
+open WnVerif.Db WnVerif.Glob
+
+/-- the expand-lexicon synsets sharing x's ILI (other than x itself) -/
+def expandSources (db : Db) (w : Wordnet) (x : SynsetData) (ili : String) : List SynsetData :=
+  (findSynsets db none [] none (some ili) w.expids false true).filter (fun s => s.rowid != x.rowid && s.rowid != 0)
+
+/-- exact characterisation: a borrowed relation is (r, source id, target) where r is a relation of
+an expand-lexicon synset sharing x's ILI, the relation's own target has an ILI `t`, and the
+reported target is a synset of the scope carrying `t` — or the placeholder carrying `t` when the
+scope has none -/
+theorem C12_expanded_exact (db : Db) (w : Wordnet) (x : SynsetData) (types : List String) (ili : String)
+    (hili : x.ili = some ili) (hexp : w.expids ≠ []) (e : RelData SynsetData × String × SynsetData) :
+    e ∈ expandedSynsetRelations db w x types ↔
+      ∃ r ∈ synsetRelations db ((expandSources db w x ili).map (·.rowid)) types w.expids,
+        ∃ t, r.target.ili = some t ∧ e.1 = r ∧
+          e.2.1 = (((expandSources db w x ili).find? (fun s => s.rowid == r.source)).map (·.id)).getD "" ∧
+          ((e.2.2 ∈ synsetsForIlis db [t] (entityLexids db w x.lex)) ∨
+           (synsetsForIlis db [t] (entityLexids db w x.lex) = [] ∧ e.2.2 = inferred t x.lex)) := by
+  unfold expandedSynsetRelations
+  simp only [hili]
+  have hne : w.expids.isEmpty = false := by simpa [List.isEmpty_iff] using hexp
+  simp only [hne, Bool.false_eq_true, if_false, List.mem_flatMap]
+  constructor
+  · rintro ⟨r, hr, he⟩
+    refine ⟨r, hr, ?_⟩
+    split at he
+    · simp at he
+    · rename_i t ht
+      refine ⟨t, ht, ?_⟩
+      split at he
+      · rename_i hemp
+        have he' := List.mem_singleton.mp he
+        subst he'
+        exact ⟨rfl, rfl, Or.inr ⟨by simpa [List.isEmpty_iff] using hemp, rfl⟩⟩
+      · simp only [List.mem_map] at he
+        obtain ⟨l, hl, rfl⟩ := he
+        exact ⟨rfl, rfl, Or.inl hl⟩
+  · rintro ⟨r, hr, t, ht, h1, h2, h3⟩
+    refine ⟨r, hr, ?_⟩
+    obtain ⟨e1, e2, e3⟩ := e
+    simp only at h1 h2 h3
+    subst h1 h2
+    simp only [ht]
+    rcases h3 with h3 | ⟨h3, h4⟩
+    · have : (synsetsForIlis db [t] (entityLexids db w x.lex)).isEmpty = false := by
+        cases hh : synsetsForIlis db [t] (entityLexids db w x.lex) with
+        | nil => rw [hh] at h3; simp at h3
+        | cons _ _ => rfl
+      simp only [this, Bool.false_eq_true, if_false, List.mem_map]
+      exact ⟨e3, h3, rfl⟩
+    · subst h4
+      simp [h3, expandSources]
+
+/-- the resolved targets carry the ILI of the expand relation's target -/
+theorem C12_target_ili (db : Db) (t : String) (lexids : List Nat) (y : SynsetData)
+    (h : y ∈ synsetsForIlis db [t] lexids) : y.ili = some t ∧ y.lex ∈ lexids := by
+  simp only [synsetsForIlis, List.mem_map, List.mem_filter, Bool.and_eq_true, inLex, List.contains_iff_mem] at h
+  obtain ⟨row, ⟨_, hi, hl⟩, rfl⟩ := h
+  refine ⟨?_, hl⟩
+  split at hi
+  · rename_i j hj
+    simp at hi; subst hi
+    simp [synsetData, hj]
+  · simp at hi
+
+/-- … conversely every synset of the scope with that ILI is a target (none is skipped) -/
+theorem C12_target_complete (db : Db) (t : String) (lexids : List Nat) (row : RSynset) (hrow : row ∈ db.synsets)
+    (hi : iliIdOf db row.ili = some t) (hl : row.lex ∈ lexids) : synsetData db row ∈ synsetsForIlis db [t] lexids := by
+  simp only [synsetsForIlis, List.mem_map, List.mem_filter, Bool.and_eq_true, inLex, List.contains_iff_mem]
+  exact ⟨row, ⟨hrow, by simp [hi], hl⟩, rfl⟩
+
+/-- targets without an ILI are dropped: every borrowed relation's own target has an ILI -/
+theorem C12_targets_without_ili_dropped (db : Db) (w : Wordnet) (x : SynsetData) (types : List String)
+    (e : RelData SynsetData × String × SynsetData) (h : e ∈ expandedSynsetRelations db w x types) :
+    e.1.target.ili ≠ none ∧ e.2.2.ili = e.1.target.ili := by
+  unfold expandedSynsetRelations at h
+  split at h
+  · simp at h
+  · split at h
+    · simp at h
+    · simp only [List.mem_flatMap] at h
+      obtain ⟨r, _, hr⟩ := h
+      split at hr
+      · simp at hr
+      · rename_i t ht
+        split at hr
+        · simp at hr; subst hr; simp [ht, inferred]
+        · simp only [List.mem_map] at hr
+          obtain ⟨l, hl, rfl⟩ := hr
+          simp [ht, (C12_target_ili db t _ l hl).1]
+
+/-- the reported relation keeps the expand lexicon's source, target and lexicon: it is a relation
+row of an expand lexicon whose target is owned by an expand lexicon -/
+theorem C12_keeps_expand_relation (db : Db) (w : Wordnet) (x : SynsetData) (types : List String)
+    (e : RelData SynsetData × String × SynsetData) (h : e ∈ expandedSynsetRelations db w x types) :
+    e.1.target.lex ∈ w.expids ∧ ∃ row ∈ db.synrels, row.lex ∈ w.expids ∧ e.1.lexicon = lexSpec db row.lex ∧
+      e.1.md = row.md ∧ e.1.source = row.source := by
+  unfold expandedSynsetRelations at h
+  split at h
+  · simp at h
+  · split at h
+    · simp at h
+    · simp only [List.mem_flatMap] at h
+      obtain ⟨r, hr, he⟩ := h
+      have hr1 : e.1 = r := by
+        split at he
+        · simp at he
+        · split at he
+          · simp at he; subst he; rfl
+          · simp only [List.mem_map] at he
+            obtain ⟨l, _, rfl⟩ := he; rfl
+      rw [hr1]
+      unfold synsetRelations at hr
+      have h' := mem_dedupBy _ _ r hr
+      simp only [List.mem_filterMap] at h'
+      obtain ⟨row, hrow, hx⟩ := h'
+      split at hx
+      · rename_i hc
+        simp only [Bool.and_eq_true, inLex, List.contains_iff_mem] at hc
+        split at hx
+        · split at hx
+          · rename_i hl
+            simp only [inLex, List.contains_iff_mem] at hl
+            simp at hx; subst hx
+            exact ⟨hl, row, hrow, hc.2, rfl, rfl, rfl⟩
+          · simp at hx
+        · simp at hx
+      · simp at hx
+
+/-- own relations come first, borrowed ones after -/
+theorem C12_own_then_borrowed (db : Db) (w : Wordnet) (x : SynsetData) (types : List String) :
+    synsetIterRelations db w x types =
+      (localSynsetRelations db w x types).map (fun r => (⟨r.name, x.id, r.target.id, r.lexicon, r.md⟩, r.target)) ++
+      (expandedSynsetRelations db w x types).map (fun (r, src, tgt) => (⟨r.name, src, r.target.id, r.lexicon, r.md⟩, tgt)) := rfl
+
+/-- with `expand=''` (no expand lexicons) only own relations are used -/
+theorem C12_no_expand_own_only (db : Db) (w : Wordnet) (x : SynsetData) (types : List String) (h : w.expids = []) :
+    synsetIterRelations db w x types =
+      (localSynsetRelations db w x types).map (fun r => (⟨r.name, x.id, r.target.id, r.lexicon, r.md⟩, r.target)) := by
+  unfold synsetIterRelations expandedSynsetRelations
+  cases x.ili <;> simp [h]
+
+/-- a synset without an ILI borrows nothing -/
+theorem C12_no_ili_own_only (db : Db) (w : Wordnet) (x : SynsetData) (types : List String) (h : x.ili = none) :
+    expandedSynsetRelations db w x types = [] := by
+  unfold expandedSynsetRelations; rw [h]
+
+/-- `Wordnet(lexicon, expand='')` has no expand lexicons -/
+theorem C12_expand_empty_string (db : Db) (lexicon lang : Option String) (w : Wordnet)
+    (h : mkWordnet db lexicon lang (some "") = some w) : w.expids = [] := by
+  unfold mkWordnet at h
+  split at h
+  · simp at h
+  · simp at h; rw [← h]
+
+/-- default expansion of a restricted Wordnet: exactly the declared dependencies that are
+installed (`provider_rowid` not null), resolved through `find_lexicons`; the missing ones are
+reported (the warning) -/
+theorem C12_default_expand_restricted (db : Db) (lexicon lang : Option String) (w : Wordnet)
+    (hr : (!truthy lexicon && !truthy lang) = false) (h : mkWordnet db lexicon lang none = some w) :
+    ∃ lexs, findLexicons db (if truthy lexicon then lexicon.getD "*" else "*") lang = some lexs ∧
+      w.lexids = lexs.map (·.rowid) ∧
+      let deps := (lexs.map (·.rowid)).flatMap (fun l => db.deps.filter (fun d => d.dependent == l))
+      let spec := " ".intercalate ((deps.filter (fun d => d.provider.isSome)).map (fun d => d.pid ++ ":" ++ d.pver))
+      w.missing = (deps.filter (fun d => d.provider.isNone)).map (fun d => d.pid ++ ":" ++ d.pver) ∧
+      (if spec == "" then w.expids = [] else ∃ ex, findLexicons db spec none = some ex ∧ w.expids = ex.map (·.rowid)) := by
+  unfold mkWordnet at h
+  simp only [hr] at h
+  split at h
+  · simp at h
+  · rename_i lexs hl
+    refine ⟨lexs, hl, ?_⟩
+    simp only [Option.isNone_none, Bool.not_false, Bool.and_self, if_true, Bool.false_eq_true, if_false] at h
+    split at h
+    · rename_i hs
+      simp at h; subst h
+      simp only [true_and]
+      simp at hs
+      simp [hs]
+    · rename_i hs
+      split at h
+      · simp at h
+      · rename_i ex hex
+        simp at h; subst h
+        simp only [true_and]
+        simp at hs
+        simp [hs, hex]
+
+/-- an unrestricted Wordnet expands over all lexicons (`*`) -/
+theorem C12_default_expand_unrestricted (db : Db) (w : Wordnet)
+    (h : mkWordnet db none none none = some w) :
+    w.defaultMode = true ∧ ∃ ex, findLexicons db "*" none = some ex ∧ w.expids = ex.map (·.rowid) := by
+  unfold mkWordnet at h
+  simp only [truthy] at h
+  split at h
+  · simp at h
+  · simp at h
+    split at h
+    · simp at h
+    · rename_i ex hex
+      simp at h; subst h
+      exact ⟨rfl, ex, hex, rfl⟩
+
 end WnVerif.Props.C12
